@@ -384,3 +384,31 @@ package aggregate
 //@   ensures p.scale <= old(p.scale) && p.scale >= -10
 //@   ensures p.count == old(p.count) || (p.count == old(p.count) + 1 && (p.zeroCount == old(p.zeroCount) + 1 || p.zeroCount == old(p.zeroCount)))
 //@   assert@call Handle#1 : p.count == old(p.count) && p.zeroCount == old(p.zeroCount) && p.sum === old(p.sum) && p.min === old(p.min) && p.max === old(p.max) && p.scale == old(p.scale)
+
+// ======================================================================== C12 attribute filter wrapper
+// with a filter: the aggregate function is called exactly once, with the SAME value, the kept part of the attribute set and the
+// dropped attributes of Set.Filter(filter) - no measurement is lost or duplicated by filtering; without a filter: passed through
+//@ ghost var fltCalls int
+//@ func (b Builder[N]) filter$1(ctx context.Context, n $N, a attribute.Set)
+//@   prop C12
+//@   instances int64; float64
+//@   overflow assumed
+//@   unchecked frame the aggregate function is an unknown function value
+//@   requires f != nil
+//@   modifies ghost fltCalls
+//@   ghost@entry : fltCalls = 0
+//@   assert@call f#* : fltCalls == 0 && $arg0 == ctx && $arg1 === n && $arg2 == fAttr && $arg3 === dropped
+//@   assert@call Set.Filter#1 : $arg1 == fltr
+//@   ghost@call f#* : fltCalls = fltCalls + 1
+//@   assert@return#* : fltCalls == 1
+//@ func (b Builder[N]) filter$2(ctx context.Context, n $N, a attribute.Set)
+//@   prop C12
+//@   instances int64; float64
+//@   overflow assumed
+//@   unchecked frame the aggregate function is an unknown function value
+//@   requires f != nil
+//@   modifies ghost fltCalls
+//@   ghost@entry : fltCalls = 0
+//@   assert@call f#* : fltCalls == 0 && $arg0 == ctx && $arg1 === n && $arg2 == a && len($arg3) == 0
+//@   ghost@call f#* : fltCalls = fltCalls + 1
+//@   assert@return#* : fltCalls == 1
